@@ -696,7 +696,7 @@ def hier_stream(ck, tmp):
         only = (i % 5 == 4)
         data = gen_level(rng, depth, set(), only_deps=only, big=(ck.deep and i % 10 == 0), int_extra=True)
         for o, d in pattern_pairs(rng, data, full=ck.deep and i % 3 == 0):
-            cases.append((rng.choice([1, 4, 16, 16, 25, 512]), o, d, data))
+            cases.append((rng.choice([1, 4, 16, 16, 25, 27, 32, 32, 40, 64, 512]), o, d, data))
     return check_fe(ck, tmp, "hierarchy", cases)
 
 
@@ -705,7 +705,7 @@ def impl_stream(ck, tmp):
     cases = []
     for data in impl_created(ck, tmp, 8 if not ck.deep else 60):
         for o, d in pattern_pairs(rng, data, full=False)[:8]:
-            cases.append((16, o, d, data))
+            cases.append((rng.choice([16, 32, 64]), o, d, data))
     return check_fe(ck, tmp, "impl-created", cases)
 
 
@@ -779,7 +779,7 @@ def search(ck, tmp):
     fails = []
     for i in range(150):
         data = gen_level(rng, [1, 2, 3][i % 3], set(), only_deps=(i % 7 == 6))
-        cases = [(16, o, d, data) for o, d in pattern_pairs(rng, data, full=(i % 5 == 0))]
+        cases = [(rng.choice([16, 27, 32, 32, 40, 64, 100]), o, d, data) for o, d in pattern_pairs(rng, data, full=(i % 5 == 0))]
         fails += check_fe(ck, tmp, "search", cases, model=False)
         if fails:
             return fails
